@@ -106,6 +106,10 @@ func baseCfg(r *rand.Rand, protos []string, o *PipeGenOpts) NodeCfg {
 		c.SockQueue = 1 + r.Intn(6)
 	}
 	c.PoolPolicy = r.Intn(4)
+	// deployment layout
+	c.ConfLinked = r.Intn(3) == 0
+	c.TmpOtherFS = r.Intn(3) == 0
+	c.StatsProm = r.Intn(3) == 0
 	c.Poison = true
 	if o.Stalls && r.Intn(2) == 0 {
 		c.StallProb = []int{20, 50, 100}[r.Intn(3)]
